@@ -97,6 +97,7 @@ def main():
     level = getattr(mod, "LEVEL", "proof")
     theorems = list(getattr(mod, "THEOREMS", []))
     module = getattr(mod, "MODULE", f"PyhmsVerif.Props.{pid}")
+    modules = [module] + [m for m in getattr(mod, "EXTRA_MODULES", []) if m != module]
     evidence = {
         "property_id": pid,
         "tier": args.tier,
@@ -115,12 +116,12 @@ def main():
         ok_model, out_model = leantools.lake_build("PyhmsVerif")
         if not ok_model:
             broken.append({"kind": "model-build", "detail": out_model[-1500:]})
-        ok_props, out_props = leantools.lake_build(module) if theorems else (True, "")
+        ok_props, out_props = leantools.lake_build(modules) if theorems else (True, "")
         if not ok_props:
             broken.append({"kind": "proof-build", "module": module, "detail": out_props[-1500:]})
         per, raw = ({}, "")
         if ok_props and theorems:
-            per, raw = leantools.audit(module, theorems)
+            per, raw = leantools.audit(modules, theorems)
         discharged = [t for t in theorems if per.get(t, (False,))[0]]
         for t in theorems:
             if t not in discharged:
@@ -131,7 +132,7 @@ def main():
         if ctx.thorough and ok_props and theorems:
             import subprocess
 
-            p = subprocess.run(["lake", "env", "leanchecker", module], cwd=common.LEAN_DIR, stdout=subprocess.PIPE, stderr=subprocess.STDOUT, timeout=3000)
+            p = subprocess.run(["lake", "env", "leanchecker"] + modules, cwd=common.LEAN_DIR, stdout=subprocess.PIPE, stderr=subprocess.STDOUT, timeout=3000)
             lean_info["leanchecker_rc"] = p.returncode
             lean_info["leanchecker_tail"] = p.stdout.decode()[-300:]
             if p.returncode != 0:
@@ -197,7 +198,7 @@ def main():
     cov = evidence["coverage"]
     cov["obligations"] = lean_info.get("obligations", 0)
     cov["discharged"] = lean_info.get("discharged", 0)
-    cov["checker_cmd"] = f"cd lean && lake build {module} && lake env lean <#print axioms of {len(theorems)} theorems>" + (" && lake env leanchecker " + module if ctx.thorough else "")
+    cov["checker_cmd"] = f"cd lean && lake build {' '.join(modules)} && lake env lean <#print axioms of {len(theorems)} theorems>" + (" && lake env leanchecker " + " ".join(modules) if ctx.thorough else "")
     cov["trusted_base"] = list(getattr(mod, "TRUSTED_BASE", [])) + [
         "Lean 4.33 kernel; axioms allowed: propext, Classical.choice, Quot.sound (audited per theorem this run)",
         "hand-written Lean model tied to /repo by the correspondence slices listed under 'slices'",
